@@ -224,4 +224,53 @@ pub fn run_realheap(seed: u64, budget_events: u64, out: &mut RunOut) {
     }
 }
 
+// ------------------------------------------------------------------------------ C13: capacity promises at large arguments
+
+/// with_capacity(n) must offer n and take n fresh insertions without its capacity changing — also for n in the
+/// hundreds of thousands; reserve / try_reserve / shrink with large arguments.
+pub fn run_bigcap(seed: u64, max_n: usize, out: &mut RunOut) {
+    let mut rng = Rng::new(seed);
+    let cfg = HistCfg { hk: 3, cap0: None, max: usize::MAX, universe: 0, events: 0, extreme: false };
+    let mut ns: Vec<usize> = vec![0, 1, 2, 3, 4, 7, 8, 14, 15, 28, 29, 56, 57, 100, 448, 449, 1000, 3584, 5000, 14336, 20000, 30000, 60000, 100000, 250000, 1000000];
+    ns.retain(|n| *n <= max_n);
+    for _ in 0..6 { ns.push(rng.range(30, max_n.min(200000))); }
+    for n in ns {
+        for ctor in 0..2u8 {
+            let what = format!("{}(usize::MAX, {})", if ctor == 0 { "with_capacity" } else { "with_capacity_and_hasher" }, n);
+            macro_rules! body { ($c:expr) => {{
+                let mut c = $c;
+                let cap0 = c.capacity();
+                out.stats.eval("C13", mix(&[8800, ctor as u64, (n as f64).log2() as u64]));
+                out.stats.count("c13_bigcap_constructions");
+                if n >= 20000 { out.stats.count("c13_bigcap_constructions_20000_plus"); }
+                if cap0 < n { fail(out, "C13", "ctor-capacity", format!("{} provides capacity {}", what, cap0), &cfg, what.clone()); }
+                let mut changed_at = None;
+                for i in 0..n as u32 { let _ = c.insert(i, i); if c.capacity() != cap0 && changed_at.is_none() { changed_at = Some((i, c.capacity())); break; } }
+                out.stats.add("c13_bigcap_insertions", n as u64);
+                out.stats.events += n as u64 / 64 + 1;
+                if let Some((i, cap)) = changed_at { fail(out, "C13", "with-capacity-changed", format!("{}: capacity changed from {} to {} at fresh insertion #{}", what, cap0, cap, i + 1), &cfg, what.clone()); }
+                else if c.len() != n { fail(out, "C04", "lost", format!("{}: {} of {} fresh entries held with limit usize::MAX", what, c.len(), n), &cfg, what.clone()); }
+                // reserve / try_reserve / shrink at this scale
+                let len = c.len();
+                for add in [0usize, 1, n / 2 + 1, 50000] {
+                    let before = c.capacity();
+                    if rng.chance(1, 2) { c.reserve(add); } else if c.try_reserve(add).is_err() { fail(out, "C13", "try-reserve-failed", format!("{}: try_reserve({}) failed with {} entries", what, add, len), &cfg, what.clone()); }
+                    if c.capacity() < len + add { fail(out, "C13", "reserve-bound", format!("{} then reserve({}): capacity {} < len {} + additional", what, add, c.capacity(), len), &cfg, what.clone()); }
+                    if c.capacity() < before { fail(out, "C13", "reserve-shrank", format!("{} then reserve({}): capacity fell from {} to {}", what, add, before, c.capacity()), &cfg, what.clone()); }
+                    out.stats.eval_only("C13");
+                }
+                let before = c.capacity();
+                let m = len + rng.usize_below(len / 2 + 2);
+                c.shrink_to(m);
+                if c.capacity() > before || c.capacity() < m.min(before) { fail(out, "C13", "shrink-bounds", format!("{} then shrink_to({}): capacity {} -> {} with {} entries", what, m, before, c.capacity(), len), &cfg, what.clone()); }
+                c.shrink_to_fit();
+                if c.capacity() < len || c.len() != len { fail(out, "C13", "shrink-bounds", format!("{} then shrink_to_fit: capacity {} with {} entries", what, c.capacity(), len), &cfg, what.clone()); }
+                if len > 0 && (c.peek_lru().map(|(k, _)| *k) != Some(0) || c.peek_mru().map(|(k, _)| *k) != Some(len as u32 - 1)) { fail(out, "C13", "not-transparent", format!("{}: order changed by capacity operations", what), &cfg, what.clone()); }
+                if out.stats.samples.get("C13").map(|v| v.len()).unwrap_or(0) < 4 && n >= 1000 { out.stats.sample("C13", format!("{}: capacity {} unchanged through {} fresh insertions; after reserve/shrink: {}", what, cap0, n, c.capacity())); }
+            }}; }
+            if ctor == 0 { body!(LruCache::<u32, u32>::with_capacity(usize::MAX, n)); } else { body!(LruCache::<u32, u32, TH>::with_capacity_and_hasher(usize::MAX, n, TH(3, next_hasher_seed()))); }
+        }
+    }
+}
+
 pub fn _unused(_: &Viol) {}
